@@ -33,6 +33,8 @@ def gen_cases(tier, seed):
         r = random.Random(env.seed_for(s, "descriptor"))  # independent of the stream run_case derives from the same seed
         out.append({"seed": s, "n": r.randint(1, maxcalls), "tier": tier, "break_unpack": r.random() < 0.08,
                     "cfg": {"p_cont": 0.4, "p_opq": 0.2, "p_unpack": 0.2, "p_kw": 0.3}})
+    for i in range(n // 20):
+        out.append({"seed": env.seed_for(seed, ID, tier, "wrapped", i), "mode": "wrapped"})
     out.extend(preempt.gen_descs(tier, seed, ID))  # "the same for every ... timing": deterministic single-preemption enumeration
     return out
 
@@ -75,9 +77,89 @@ def compare_args(ir, E, nid, seen):
     return None
 
 
+def run_wrapped(desc):
+    """Call functions with explicit, DIFFERENT signatures that share one decorator (functools.wraps, so they also share the wrapper's code
+    object), lambdas, functools.partial objects, bound methods, classes and builtins as callables; positional and keyword arguments
+    (names that coincide with names used inside the engine), with and without retry."""
+    import functools
+
+    import uberjob
+
+    rng = random.Random(desc["seed"])
+
+    def deco(f):
+        @functools.wraps(f)
+        def wrapper(*a, **k):
+            return f(*a, **k)
+        return wrapper
+
+    def f1(a, b):
+        return ("f1", a, b)
+
+    def f2(x, *, k):
+        return ("f2", x, k)
+
+    def f3(a, b=5, *rest, f=None, attempts=3, **more):
+        return ("f3", a, b, rest, f, attempts, tuple(more.items()))
+
+    def f4(fn, retry, node=0):
+        return ("f4", fn, retry, node)
+
+    class K:
+        def __init__(self, v, exc_type=None):
+            self.v = (v, exc_type)
+
+        def m(self, p, q=2):
+            return ("m", self.v, p, q)
+
+        def __eq__(self, o):
+            return type(o) is K and o.v == self.v
+
+        __hash__ = None
+
+    calls = [  # (callable, args, kwargs)
+        (deco(f1), (1, 2), {}), (deco(f2), (3,), {"k": 4}), (deco(f3), (1,), {"f": 7, "attempts": 9, "zz": 1}), (deco(f3), (1, 2, 3, 4), {}),
+        (deco(f4), (), {"fn": 1, "retry": 2, "node": 3}), (f4, ("a", "b"), {}), (functools.partial(f3, 10), (), {"exc_type": 1, "f": 2}),
+        (K, (5,), {"exc_type": "E"}), (K(1).m, (8,), {"q": 9}), (max, (3, 9, 4), {}), (sorted, ([3, 1, 2],), {"reverse": True}), (lambda *a, **k: (a, tuple(k.items())), (1,), {"f": 2, "args": 3}),
+        (dict, (), {"f": 1, "self_": 2}), (deco(f2), (0,), {"k": None}),
+    ]
+    rng.shuffle(calls)
+    calls = calls[: rng.randint(4, len(calls))]
+    plan = uberjob.Plan()
+    nodes, want = [], []
+    exc = None
+    try:
+        for fn, a, k in calls:
+            a2 = tuple(nodes[rng.randrange(len(nodes))] if nodes and rng.random() < 0.2 and fn in (max,) and False else x for x in a)
+            nodes.append(plan.call(fn, *a2, **k))
+            want.append(fn(*a, **k))
+    except BaseException as e:
+        exc = e
+    bad = None
+    if exc is not None:
+        bad = f"a legal symbolic call could not be created: {exc!r}"
+    else:
+        for retry in (None, 2, 3):
+            try:
+                got = uberjob.run(plan, output=nodes, retry=retry, max_workers=rng.choice([1, 3]), progress=None)
+            except BaseException as e:
+                bad = f"[retry={retry}] run raised {e!r} (cause {e.__cause__!r}) but direct evaluation succeeds"
+                break
+            if got != want:
+                bad = f"[retry={retry}] run returned {got!r}, direct evaluation gives {want!r}"
+                break
+    res = {"status": "ok", "counters": {"wrapped_callable_cases": 1, "runs": 3}, "sets": {"features_exercised": ["wrapped_callables"]}, "nontrivial": True,
+           "sig": f"wrapped|{desc['seed'] % 100000}"}
+    if bad:
+        res.update(status="violation", detail=f"[callables with explicit signatures, shared decorator, keyword names f/attempts/exc_type/fn/retry] {bad}", mechanism="value-mismatch")
+    return res
+
+
 def run_case(desc):
     import uberjob
 
+    if desc.get("mode") == "wrapped":
+        return run_wrapped(desc)
     if desc.get("mode") == "preempt1":
         r_ = preempt.enumerate_case(desc, preempt_oracle)
         r_.setdefault("sets", {})["features_exercised"] = ["preempt1"]
@@ -124,7 +206,7 @@ def run_case(desc):
         with pert.make(seed ^ W, pmode):
             exc = None
             try:
-                got = uberjob.run(plan, output=out, max_workers=W, scheduler=sched, progress=None)
+                got = uberjob.run(plan, output=out, max_workers=W, scheduler=sched, progress=None, retry=(2 if (seed + W) % 3 == 0 else None))
             except BaseException as e:
                 exc = e
         counters["runs"] += 1
